@@ -221,6 +221,19 @@ fn mutations(v: &Value, ids: &[String], rng: &mut Rng, cap: usize) -> Vec<(Strin
                 let mut m = v.clone();
                 *get_mut(&mut m, p).unwrap() = json!({});
                 push(format!("empty-object {}", name), m);
+                // every optional-looking member (number or null) absent at once (e.g. a range without bounds)
+                let opt: Vec<String> = o.iter().filter(|(_, x)| x.is_null() || x.is_number()).map(|(k, _)| k.clone()).collect();
+                if opt.len() >= 2 && p.len() <= 3 {
+                    let mut m = v.clone();
+                    if let Some(Value::Object(x)) = get_mut(&mut m, p) {
+                        for k in &opt {
+                            if k != "claim" {
+                                x[k] = Value::Null;
+                            }
+                        }
+                    }
+                    push(format!("null-optionals {}", name), m);
+                }
                 // enum variant tag: a single-key object whose key is a variant name — swap the tag
                 if o.len() == 1 {
                     let k = o.keys().next().unwrap().clone();
@@ -269,7 +282,7 @@ fn mutations(v: &Value, ids: &[String], rng: &mut Rng, cap: usize) -> Vec<(Strin
     }
     // top-level structure (whole proofs / statements / disclosed maps: paths of depth <= 2) is always kept;
     // the deeper mutations are sampled down to the cap
-    let is_top = |d: &str| d.split(' ').nth(1).map(|p| p.split('/').count() <= 2).unwrap_or(false);
+    let is_top = |d: &str| d.starts_with("null-optionals") || d.starts_with("repeat-x8") || d.split(' ').nth(1).map(|p| p.split('/').count() <= 2).unwrap_or(false);
     let (mut top, mut deep): (Vec<_>, Vec<_>) = out.into_iter().partition(|(d, _)| is_top(d));
     if deep.len() > cap {
         rng.shuffle(&mut deep);
@@ -490,6 +503,10 @@ fn blind<S: ShortGroupSignatureScheme>(em: &mut Emitter, rng: &mut Rng, suite: &
         let text = serde_json::to_string(&m).unwrap();
         match call(|| serde_json::from_str::<BlindCredentialRequest<S>>(&text)) {
             Out::Ok(r) => {
+                if let Out::Panic(msg) = call(|| r.verify(&issuer)) {
+                    let (sig, at) = site_sig("blind-request-verify");
+                    em.violation(&sig, format!("{}: BlindCredentialRequest::verify panicked at {} on a request with '{}': {}", suite, at, d, msg), json!({"suite": suite, "mutation": d, "request": m}));
+                }
                 let mut i2 = issuer.clone();
                 let res = call(|| i2.blind_sign_credential(&r, &known));
                 em.count(&format!("blind-sign:{}", res.class()));
